@@ -20,7 +20,8 @@ CLAIMS = {
              "for every grid shape within the bounds, symbolic grid values and payloads, every shuffle permutation "
              "(N<=5 quick, N=6 thorough) and every completion order of the three executor flavours, each combination "
              "is called exactly once and its result sits in its own slot; also 33 / 40 / 65 tasks through each "
-             "executor flavour (size thresholds).  'Confirmed over all paths' per condition; "
+             "executor flavour (size thresholds) and two successive sweeps over equal-but-differently-typed grids "
+             "(state kept between sweeps; decided by the plain run of the instance).  'Confirmed over all paths' per condition; "
              "counterexamples are replayed on the real random module before being reported."),
     "C02": dict(
         engine="A", category="model_checking", design_ref="DESIGN.md 5/C02",
@@ -32,7 +33,8 @@ CLAIMS = {
              "argument, every shuffle permutation of <=4 cases: the function is called exactly once per requested "
              "setting and never otherwise, the grid spans the sorted per-argument union, requested slots hold their "
              "payload, all others the correctly shaped placeholder (for dict-valued results: a Dataset with every "
-             "variable null); argument values of mixed int/float type and tuple-valued argument values; an argument "
+             "variable null); argument values of mixed int/float type and tuple-valued argument values; cases "
+             "given as a one-shot iterator; an argument "
              "in both cases and combos is rejected before any call."),
     "C03": dict(
         engine="A", category="model_checking", design_ref="DESIGN.md 5/C03",
@@ -99,7 +101,8 @@ CLAIMS = {
         text="Datasets with <= 6 locations, 1-2 variables, optional internal dimension (ignored or not), every "
              "finite/NaN/inf pattern, both null criteria, requested combos/cases incl. absent labels, and the "
              "find -> harvest -> find loop, dimensions named like options of Dataset.sel ('tolerance', 'drop', "
-             "'method'): exactly the all-null locations are reported, in grid order."),
+             "'method'), a variable spanning only some of the parameter dimensions: exactly the all-null "
+             "locations are reported, in grid order."),
     "C14": dict(
         engine="A", category="other", design_ref="DESIGN.md 5/C14",
         technique="CrossHair symbolic execution of the real auto_add_extension / save_ds / load_ds / save_merge_ds / "
@@ -154,7 +157,8 @@ CLAIMS = {
         text="For every (N<=6 quick / <=10 thorough, batchsize|num_batches|neither), grids, case lists and cases x "
              "sub-grid, with and without farmer constants/resources and under every shuffle permutation of N<=4: the "
              "batch files partition the direct run's settings exactly, sizes honour the request, and the crop reports "
-             "the same numbers after a reload; also one case given as a bare dict crossed with a sub-grid."),
+             "the same numbers after a reload; also one case given as a bare dict crossed with a sub-grid, "
+             "sow_cases with a dict sub-grid, and a directory started over with another batching."),
     "C08": dict(
         engine="A", category="model_checking", design_ref="DESIGN.md 5/C08",
         technique="CrossHair, inductive step: arbitrary valid crop state (solver-chosen finished subset) + one "
